@@ -102,6 +102,34 @@ void h_chunkhdr(void)
 	outcome(ho_readdata);
 	REACHED();
 }
+/* chunk-size lines of HEXD hex digits (16 = the full width of size_t, 17 = one more): sizes near 2^64 against a body
+ * that already holds data -- the remaining-room comparison must not wrap */
+#ifndef HEXD
+#define HEXD 16
+#endif
+void h_chunkhdr_long(void)
+{
+	struct http_cookie * H = mk();
+	H->chunked = 1;
+	ASSUME(H->res.bodylen <= H->res_bodylen_max);
+	uint8_t * d = malloc(HEXD + 2); ASSUME(d != NULL);
+	unsigned __int128 v = 0;
+	for (size_t i = 0; i < HEXD; i++) { d[i] = nd_u8(); ASSUME(vhs_digit(d[i]) < 16); v = v * 16 + (unsigned)vhs_digit(d[i]); }
+	d[HEXD] = '\r'; d[HEXD + 1] = '\n';
+	DATA = d; DLEN = HEXD + 2;
+	size_t bl0 = H->res.bodylen, mx = H->res_bodylen_max;
+	(void)callback_chunkedheader(H, 0);
+	if (ho_readdata) {
+		CHECK(ho_readlen >= 3, "a data chunk is handed over with its trailing CRLF");
+		CHECK(ho_readlen - 2 <= ho_max - ho_bodylen, "chunk size checked against the remaining limit (no wrap-around)");
+		CHECK(v <= (unsigned __int128)(mx - bl0) && (unsigned __int128)(ho_readlen - 2) == v, "the size handed over is the numeral's value");
+	} else if (v == 0) CHECK(ucb_calls == 1 && !ucb_null && cb_bodylen == bl0, "size 0: the body is complete and delivered");
+	else if (v > (unsigned __int128)SIZE_MAX) CHECK(ucb_calls == 1 && ucb_null, "a numeral beyond size_t fails the request");
+	else CHECK(ucb_calls == 1 && !ucb_null, "chunk beyond the remaining room: reported as too big, never read");
+	if (v != 0 && v <= (unsigned __int128)SIZE_MAX - 2 && v <= (unsigned __int128)(mx - bl0)) CHECK(ho_readdata == 1, "a chunk that fits is read");
+	outcome(ho_readdata);
+	REACHED();
+}
 /* successor of the data stage */
 static int ho_chunkhdr;
 int stub_chunkhdr(void * c, int status) { (void)c; (void)status; ho_chunkhdr++; return 0; }
